@@ -325,3 +325,19 @@ h!(q_new_uninit_small_layouts, {
     drop(a);
     assert!(n_live() == 0);
 });
+
+
+// ---- empty uninitialised slices whose element type is the most aligned thing in the block
+h!(q_uninit_empty_overaligned, {
+    let a = Arc::<[MaybeUninit<S5a16>]>::new_uninit_slice(0);
+    assert!(block_nr(0).align >= 16 && (a.as_ptr() as *const u8 as usize) % 16 == 0, "empty over-aligned slice: element alignment lost");
+    let a = unsafe { a.assume_init() };
+    assert!(a.len() == 0);
+    drop(a);
+    let u = UniqueArc::<HeaderSlice<u8, [MaybeUninit<S5a16>]>>::from_header_and_uninit_slice(3, 0);
+    assert!(block_nr(1).align >= 16 && (u.slice.as_ptr() as usize) % 16 == 0);
+    let u = unsafe { u.assume_init_slice_with_header() };
+    assert!(u.header == 3 && u.slice.len() == 0);
+    drop(u);
+    assert!(n_live() == 0);
+});
